@@ -27,9 +27,9 @@ type OWitness struct {
 type oOpts struct {
 	StrictOneof bool
 	Admissible  bool
-	NoUnknown  bool
-	Bases      []int
-	K          int
+	NoUnknown   bool
+	Bases       []int
+	K           int
 }
 
 func (t *Target) buildO(ch *Chooser, base int, o oOpts) (types.Object, *OBuilder, error) {
